@@ -230,6 +230,14 @@ impl Decimal {
         ensures r == (if self.q@ < o.q@ { Ordering::Less } else if self.q@ == o.q@ { Ordering::Equal } else { Ordering::Greater })
     { unimplemented!() }
 }
+impl Decimal {
+    /// rule R14: `Decimal::from(u128)`; aborts above the 96-bit mantissa (refusal in lenient mode, required in strict mode)
+    #[verifier::external_body]
+    pub fn from_abort(x: u128) -> (r: Decimal)
+        requires strict() ==> (x as int) < LIMIT96(),
+        ensures r.q@ == of_int(x as int), (x as int) < LIMIT96()
+    { unimplemented!() }
+}
 impl PartialEqSpecImpl for Decimal {
     open spec fn obeys_eq_spec() -> bool { true }
     open spec fn eq_spec(&self, other: &Decimal) -> bool { self.q@ == other.q@ }
@@ -486,6 +494,10 @@ pub uninterp spec fn uuid_hyph(u: int) -> Seq<char>;
 #[verifier::external_body]
 pub broadcast proof fn axiom_uuid_roundtrip(u: int)
     ensures uuid_parse(#[trigger] uuid_hyph(u)) == Some(u)
+{}
+#[verifier::external_body]
+pub broadcast proof fn axiom_uuid_nonempty(s: Seq<char>)
+    ensures #[trigger] uuid_parse(s) is Some ==> s.len() > 0
 {}
 /// canonical hyphenated form
 pub open spec fn canonical_id(s: Seq<char>) -> bool { uuid_parse(s) is Some && s == uuid_hyph(uuid_parse(s)->0) }
